@@ -42,7 +42,10 @@ TSIZE_GRID = ["0", "1", "00", "", "-0", "+0", " 0", "0 ", "512", "0\n", "O"]
 # default_timeout / max_timeout are numbers of seconds and may be fractional (the server clamps, it does not round);
 # all values are exact in ticks of 1/1024 s
 FRACTIONAL = [1.5, 1.25, 2.75, 1.0009765625, 1.9990234375, 10.0, 2.0]
-KINDS = [("bytesio", 0), ("bytesio", 3), ("file", 0), ("file", 4), ("pipe",), ("noreg",), ("sized",)]
+KINDS = [("bytesio", 0), ("bytesio", 3), ("file", 0), ("file", 4), ("pipe",), ("noreg",), ("sized",),
+         # seekable stream without a file descriptor handed over at a (non-)zero position: size unknown, no tsize,
+         # and the transfer starts at the position the handler left it at
+         ("seekpos", 0), ("seekpos", 3)]
 # ("fileread", k): a real buffered file (open(path, "rb")) whose first k bytes the handler has READ (not seek()ed)
 # before returning it: the logical position is k while the descriptor offset is at the end of the read-ahead
 # buffer.  Model: KRealFile (k + len(content)) k true, as for ("file", k).
@@ -118,6 +121,19 @@ def with_script(c, style, rng):
         for i, w in enumerate(wants):
             t += (tmt + 2) if i < 2 else 1
             ev.append((t, 0, T.ack(w)))
+    elif style.startswith("badack"):
+        # "block 1 follows only ACK 0" / lock-step: a datagram with the ACK opcode that is no ACK (truncated to 2 or 3
+        # bytes: no or half a block number; over-long: 5 or 6 bytes, zero- or non-zero-padded) arrives while packet
+        # number k of the transfer (0 = the first one, i.e. the OACK if one is due) is outstanding; it must be
+        # answered with an ERROR and end the transfer, never be taken for the acknowledgement
+        k = min(int(style[6:] or 0), len(wants) - 1)
+        bad = rng.choice([b"\x00\x04", b"\x00\x04\x00", b"\x00\x04\x00\x00\x00", b"\x00\x04\x00\x00\x00\x00",
+                          b"\x00\x04\x00\x01\x00", b"\x00\x04\x00\x00\x01", b"\x00\x04\x01",
+                          T.ack(wants[k]) + b"\x00", T.ack(wants[k])[:3], T.ack(wants[k])[:2]])
+        ev = [(i + 1, 0, T.ack(w)) for i, w in enumerate(wants[:k])]
+        t = k + 1
+        ev.append((t, 0, bad))
+        ev += [(t + 1 + i, 0, T.ack(w)) for i, w in enumerate(wants[k:])]
     elif style == "lossy":
         ev = T.coop_script(rng, wants, tmt, c["retries"], fault_rate=0.6)
     else:
@@ -311,6 +327,17 @@ def run_sequence(cases, rrqs, limits):
         shim.socket = lambda **k: fake_net.FakeSock(list(script), clock, log, 0)
         old = (S.socket, S.time, S._TftpReadRequest)
         S.socket, S.time, S._TftpReadRequest = shim, types.SimpleNamespace(monotonic=lambda: clock[0]), Rec
+        import threading as real_threading
+        started = []
+
+        class RecThread(real_threading.Thread):
+            def start(self_t):
+                started.append(self_t)
+                return super().start()
+        old_thr = S.threading
+        thr = types.SimpleNamespace(**{k: getattr(real_threading, k) for k in dir(real_threading) if not k.startswith("__")})
+        thr.Thread = RecThread
+        S.threading = thr
         h = fake_net._Log(log)
         S.logger.addHandler(h)
         old_level, old_prop = S.logger.level, S.logger.propagate
@@ -323,12 +350,13 @@ def run_sequence(cases, rrqs, limits):
                 srv._process_request(rq, fake_net.CLI, fake_net.SRV)
             except Exception as ex:
                 log.append(("logexc", type(ex).__name__))
-            for r in created:
-                r._thread.join(60)
-                if r._thread.is_alive():
+            for t in started:                  # not by a private attribute name of the request object
+                t.join(60)
+                if t.is_alive():
                     log.append(("hang",))
         finally:
             S.socket, S.time, S._TftpReadRequest = old
+            S.threading = old_thr
             S.logger.removeHandler(h)
             S.logger.setLevel(old_level)
             S.logger.propagate = old_prop
@@ -490,6 +518,14 @@ class C07(C01):
                         c = self.base(opts, max_tmo=max_tmo, default_tmo=dflt, retries=rng.choice([1, 2]),
                                       kind=("bytesio", 0))
                         yield self.finish(c, rng, style)
+        # (k) datagrams with the ACK opcode that are no ACKs (2, 3, 5, 6 bytes) while the OACK / block 1 / block 2 is
+        #     outstanding, for every kind of accepted option and without options
+        for opts in ([("blksize", "8")], [("timeout", "1")], [("tsize", "0")], [("BLKSIZE", "16"), ("timeout", "3")], []):
+            for k in (0, 1, 2):
+                for _rep in range(6 if quick else 30):
+                    c = self.base(opts, max_tmo=5, default_tmo=rng.choice([1, 2, 1.5]), retries=rng.choice([0, 1, 2]),
+                                  kind=("bytesio", 0))
+                    yield self.finish(c, rng, f"badack{k}")
         # (h) duplicate / stale ACKs at mid-interval with a negotiated time-out different from the default
         for (tmo, dflt) in ((1, 2), (3, 1), (2, 5), (None, 2)):
             for extra in ([], [("blksize", "8")], [("tsize", "0")]):
@@ -522,7 +558,7 @@ class C07(C01):
                 opts.append((nm, v))
             c = self.base(opts, max_bs=max_bs, max_tmo=max_tmo, default_tmo=dflt, kind=rng.choice(KINDS + READ_KINDS + FAULT_KINDS),
                           netascii=rng.random() < 0.25, retries=rng.choice([0, 1, 2, 3]), wrap=rng.choice([0, 1, None]))
-            yield self.finish(c, rng, rng.choice(["coop", "coop", "coop0", "silent", "skip0", "late", "lossy", "dup"]))
+            yield self.finish(c, rng, rng.choice(["coop", "coop", "coop0", "silent", "skip0", "late", "lossy", "dup", "badack0", "badack1"]))
 
     def impl(self, c):
         try:
@@ -573,7 +609,7 @@ class C07(C01):
                     dec["".join(ch for ch in nm if ord(ch) < 128)] = "".join(ch for ch in v if ord(ch) < 128)
                 c = self.base(list(dec.items()), max_bs=limits[0], max_tmo=limits[1], default_tmo=limits[2],
                               kind=rng.choice(KINDS + READ_KINDS + FAULT_KINDS), netascii=na, retries=limits[3])
-                c = self.finish(c, rng, rng.choice(["coop", "coop", "dup", "silent", "skip0", "lose1"]))
+                c = self.finish(c, rng, rng.choice(["coop", "coop", "dup", "silent", "skip0", "lose1", "badack0", "badack2"]))
                 cases.append(c)
                 rrqs.append(encode_rrq(b"some/file", mode, wire))
             traces = run_sequence(cases, rrqs, raw_limits)
